@@ -305,7 +305,11 @@ func (s *Session) Destroy(response http.ResponseWriter, request *http.Request) e
 
 // deleteCookie deletes a cookie from the user's browser.
 func deleteCookie(cookie *http.Cookie, response http.ResponseWriter) {
-	delCookie := *cookie
+	// A browser replaces a cookie only if name, domain and path match, and a
+	// request cookie carries just name and value, so take the other attributes
+	// from the template the session cookies are made from.
+	delCookie := *NewSessionCookie()
+	delCookie.Name = cookie.Name
 	delCookie.Value = "deleted"
 	delCookie.Expires = time.Unix(0, 0)
 	delCookie.MaxAge = -1
